@@ -518,6 +518,8 @@ func (e *Engine) VirtualizationUpdateResource(ctx context.Context, ID string, en
 	quota := resourceOpts.Quota
 	cpuMap := resourceOpts.CPU
 	numaNode := resourceOpts.NUMANode
+	// an unbound workload keeps its cpu quota: the full cpu set below only undoes a former binding
+	unbound := len(cpuMap) == 0
 	// unlimited cpu
 	if quota == 0 || len(cpuMap) == 0 {
 		info, err := e.Info(ctx) // TODO can fixed in docker engine, support empty Cpusetcpus, or use cache to speed up
@@ -534,7 +536,7 @@ func (e *Engine) VirtualizationUpdateResource(ctx context.Context, ID string, en
 		}
 	}
 
-	newResource := makeResourceSetting(quota, memory, cpuMap, numaNode, resourceOpts.IOPSOptions, resourceOpts.Remap)
+	newResource := makeResourceSetting(quota, memory, cpuMap, numaNode, resourceOpts.IOPSOptions, resourceOpts.Remap || unbound)
 	updateConfig := dockercontainer.UpdateConfig{Resources: newResource}
 	_, err := e.client.ContainerUpdate(ctx, ID, updateConfig)
 	return err
